@@ -151,10 +151,11 @@ impl Style {
     /// Unlike [`Reset::render`][crate::Reset::render], this will elide the code if there is nothing to reset.
     #[inline]
     pub fn render_reset(self) -> impl core::fmt::Display + Copy {
+        // `&str` would apply width / precision
         if self != Self::new() {
-            RESET
+            crate::color::NullFormatter(RESET)
         } else {
-            ""
+            crate::color::NullFormatter("")
         }
     }
 
